@@ -19,7 +19,7 @@ from .kernel import H, Sim, Violation
 from .scenarios import BaseScenario
 from .snapshot import ustr
 
-EXCLUDED = {"on_file", "uid", "parent", "workspace", "h5file", "repack", "visual_parameters", "image", "tag", "association",
+EXCLUDED = {"on_file", "uid", "parent", "workspace", "h5file", "repack", "visual_parameters", "image", "tag",
             "properties", "property_group_type", "depths", "primitive_type", "colour", "map"}
 SURVEY_ATTRS = {"ab_cell_id", "base_stations", "channels", "crossline_offset", "current_electrodes", "inline_offset", "input_type", "loop_radius", "pitch",
                 "potential_electrodes", "receivers", "relative_to_bearing", "roll", "timing_mark", "transmitters", "tx_id_property", "unit", "vertical_offset",
@@ -128,7 +128,18 @@ def _type_attrs_live(ent):
     return out
 
 
+def _association(r, ent):
+    """Another association for a stored data set (between those that do not constrain the number of values differently here)."""
+    from geoh5py.data import CommentsData, FilenameData
+
+    if isinstance(ent, (CommentsData, FilenameData)):
+        raise Skip
+    cur = ent.association.name
+    return r.choice([a for a in ("VERTEX", "OBJECT", "Vertex", "object") if a.upper() != cur])
+
+
 DOMAIN = {
+    "association": _association,
     "entity_type": _entity_type,
     "name": lambda r, e: build.name(r),
     **{f: (lambda r, e: r.random() < 0.5) for f in FLAGS},
@@ -184,7 +195,7 @@ INVALID = {
 }
 TYPE_VARYING = {"cost", "end_of_hole"}
 COUPLED = {"dip", "vertical", "surveys", "end_of_hole", "metadata", "coordinate_reference_system", "parts", "cells", "values", "vertices", "collar", "octree_cells",
-           "u_count", "v_count", "w_count", "value_map", "color_map", "options", "number_of_bins", "units", "entity_type"}
+           "u_count", "v_count", "w_count", "value_map", "color_map", "options", "number_of_bins", "units", "entity_type", "association"}
 DERIVED = ["centroids", "n_cells", "extent", "locations", "n_vertices", "shape"]
 
 TARGETS = (["obj:" + c for c in build.OBJECT_CLASSES] + ["grp:" + c for c in build.GROUP_CLASSES]
